@@ -56,10 +56,10 @@ def bootstrap():
 
 
 _world_modules = []
-_world_counter = [0]
+_world_counter = [0, 0]
 
 
-def reset_world():
+def reset_world(collect=False):
     """Forget everything earlier runs may have left in process-global state."""
     bootstrap()
     for name in _world_modules:
@@ -77,7 +77,9 @@ def reset_world():
     p.update(_boot["parsers_snap"])
     from . import faults
     faults.reset()
-    gc.collect()
+    _world_counter[1] += 1
+    if collect or _world_counter[1] % 16 == 0:
+        gc.collect()
 
 
 def new_suffix():
